@@ -170,6 +170,11 @@ def eval_moments2(case):
         key = 'moments:normalize-model' if nz else 'moments:defining-sum'
         findings.append(dict(kind='model' if nz else 'property', key=key,
                              detail=dict(got=got, want=float(want), p0=p0, p1=p1, cm=cm, normalize=nz)))
+    elif (not nz and cm is not None and Fraction(float(cm[0]) + 1.0) == c0 + 1 and Fraction(float(cm[1]) + 1.0) == c1 + 1
+          and abs(float(mh.moments(np.pad(img, ((1, 0), (1, 0))), p0, p1, cm=(float(cm[0]) + 1.0, float(cm[1]) + 1.0), **kw))
+                  - float(want)) > tol):
+        # C19_moments_translation: a zero row on top / zero column on the left with the centre moved along
+        findings.append(dict(kind='property', key='moments:translation', detail=dict(p0=p0, p1=p1, cm=cm)))
     else:
         line = (f"c19 kind=momentsf w={c} data={core.fmt_floats(img.astype(np.float64))} p0={p0} p1={p1} "
                 f"hascm={1 if cm is not None else 0} cm={core.fmt_floats([float(cm[0]), float(cm[1])] if cm is not None else [0.0, 0.0])} "
